@@ -495,6 +495,51 @@ theorem world_leaves_sorted_array (c : Ctx) :
     obtain ⟨_, i, s, x', _, _, _, hs⟩ := (close_ok h).core
     exact ⟨_, hs⟩
 
+theorem allNone_true : ∀ (s : List Account.Slot), Account.allNone s = .ok true →
+    ∀ x ∈ s, x.a < EMPTY_BALANCE_THRESHOLD ∧ x.l < EMPTY_BALANCE_THRESHOLD := by
+  intro s
+  induction s with
+  | nil => intro _ x hx; cases hx
+  | cons y rest ih =>
+    intro h x hx
+    unfold Account.allNone at h
+    obtain ⟨b, hb, h⟩ := Res.bind_ok h
+    cases b with
+    | false => simp at h
+    | true =>
+      simp only [Bool.not_true, Bool.false_eq_true, if_false] at h
+      rcases List.mem_cons.mp hx with rfl | hx
+      · unfold Account.sideIsNone at hb
+        split at hb
+        · cases hb
+        · injection hb with hb
+          simp only [Bool.and_eq_true, decide_eq_true_eq] at hb
+          exact ⟨hb.2, hb.1⟩
+      · exact ih h x hx
+
+/-- **world_close_account_spec**: `marginfi_account_close` (the whole instruction) goes through only signed by the account's
+    AUTHORITY (no group-admin and no receivership path), on an account that is not frozen, not disabled, neither in a flash loan
+    nor in receivership, and whose every slot — active or not — holds less than one share on both sides -/
+theorem world_close_account_spec {c : Ctx} (h : World.closeAccount c = .ok ()) :
+    c.a.authority = c.signer ∧ flag c ACCOUNT_FROZEN = false ∧ flag c ACCOUNT_DISABLED = false ∧
+    flag c ACCOUNT_IN_FLASHLOAN = false ∧ flag c ACCOUNT_IN_RECEIVERSHIP = false ∧
+    ∀ x ∈ c.a.slots, x.a < EMPTY_BALANCE_THRESHOLD ∧ x.l < EMPTY_BALANCE_THRESHOLD := by
+  unfold World.closeAccount at h
+  obtain ⟨_, hc, h⟩ := Res.bind_ok h
+  obtain ⟨_, hf, h⟩ := Res.bind_ok h
+  obtain ⟨ok, hcan, h⟩ := Res.bind_ok h
+  have hok : ok = true := by
+    cases ok with
+    | true => rfl
+    | false => simp [Bank.chk] at h
+  have hc' := runChecks_ok hc
+  simp only [Gen.Acc.checks, List.forall_mem_cons, List.not_mem_nil, false_imp_iff, implies_true, and_true] at hc'
+  simp [evalChk, Ctx.env] at hc'
+  have hfz := Bank.chk_ok hf
+  simp only [Bool.not_eq_true'] at hfz
+  obtain ⟨hd, hfl, hr, hall⟩ := close_ok_iff _ _ _ _ ok hcan hok
+  exact ⟨hc', hfz, hd, hfl, hr, allNone_true _ hall⟩
+
 end whole_instructions
 
 section whole_instructions
